@@ -576,9 +576,7 @@ def r121(ctx, repo):
                 average=lambda a: sum(1.0 if x else 0.0 for x in a) / len(a),
                 mean=lambda a: sum(1.0 if x else 0.0 for x in a) / len(a))}
             mini = Mini(g)
-            for stn in repo.tree(STAT).body:
-                if isinstance(stn, ast.FunctionDef):
-                    mini.g[stn.name] = mini.bind(stn)
+            mini.bind_module(repo.tree(STAT))
             try:
                 if isinstance(meth, ast.Lambda):
                     got = mini.call(meth, (mm,))
@@ -942,9 +940,7 @@ def r123(ctx, repo):
     f = repo.func(KDE, "ignore_nan_inf")
     g = {"np": np_values()}
     mini = Mini(g)
-    for stn in repo.tree(KDE).body:
-        if isinstance(stn, ast.FunctionDef):
-            mini.g[stn.name] = mini.bind(stn)
+    mini.bind_module(repo.tree(KDE))
     calls = []
 
     def estimator(events_x, events_y, xout=None, yout=None, *a, **k):
